@@ -136,13 +136,19 @@ class Enum(Shape):
 
 
 class ExtObj(Shape):
-    """An external (library) object we only talk to: every method call is recorded in `.calls`
-    (a list of (name, args) tuples) and returns None, or a fresh value of the shape given in `returns`."""
+    """An external (library) object, or a scripted collaborator, that the code under contract only
+    talks to.  Every method call is recorded in `.calls` ((name, args) tuples).  `methods` may give a
+    method a model:  dict(effects={field: "expr over self/args"}, returns=<shape>, raises=[exception
+    class names it may raise], is_async=bool).  `stream` = shape of the items an `async for` / `for`
+    over the object yields (an unbounded stream that may also end)."""
     kind = "extobj"
 
-    def __init__(self, cls, returns=None, **fields):
+    def __init__(self, cls, methods=None, stream=None, returns=None, **fields):
         self.cls = cls
-        self.returns = returns or {}
+        self.methods = methods or {}
+        for k, v in (returns or {}).items():
+            self.methods.setdefault(k, {})["returns"] = v
+        self.stream = stream
         self.fields = fields
 
 
